@@ -459,4 +459,178 @@ theorem readAll_read (delim : UInt8) (stripCr : Bool) (cap0 : Nat) (hcap : 0 < c
   refine ⟨s', ?_, e3, e4⟩
   rw [e]; show some (splitRecords delim stripCr (rrest _), s') = _; rw [h2]
 
+/-! ## mmap mode -/
+
+theorem mmapShift_fields (s : MState) (cap' : Nat)
+    (hcap : (if s.mapped && s.pos == (s.pos + s.mappedOff) % s.page then s.cap * 2 else s.cap) = cap') :
+    (mmapShift s).file = s.file ∧ (mmapShift s).page = s.page ∧ (mmapShift s).cap = cap' ∧
+    (mmapShift s).mappedOff = s.pos + s.mappedOff - (s.pos + s.mappedOff) % s.page ∧
+    (mmapShift s).pos = (s.pos + s.mappedOff) % s.page ∧ (mmapShift s).mapped = true ∧
+    ((cap' ≥ s.file.length - (s.pos + s.mappedOff - (s.pos + s.mappedOff) % s.page) ∧
+        (mmapShift s).atEnd = true ∧
+        (mmapShift s).winLen = s.file.length - (s.pos + s.mappedOff - (s.pos + s.mappedOff) % s.page)) ∨
+     (cap' < s.file.length - (s.pos + s.mappedOff - (s.pos + s.mappedOff) % s.page) ∧
+        (mmapShift s).atEnd = s.atEnd ∧ (mmapShift s).winLen = cap')) := by
+  unfold mmapShift
+  simp only []
+  rw [hcap]
+  generalize s.pos + s.mappedOff - (s.pos + s.mappedOff) % s.page = mo
+  by_cases h : cap' ≥ s.file.length - mo
+  · rw [if_pos h]; simp [h]
+  · rw [if_neg h]; simp; omega
+
+
+def MInv (s : MState) : Prop :=
+  s.mapped = true ∧ 0 < s.page ∧ s.page ∣ s.mappedOff ∧ s.page ∣ s.cap ∧ 0 < s.cap ∧
+  s.pos ≤ s.winLen ∧ s.mappedOff + s.winLen ≤ s.file.length ∧
+  (s.atEnd = true → s.mappedOff + s.winLen = s.file.length) ∧
+  (s.atEnd = false → s.winLen = s.cap ∧ s.mappedOff + s.cap < s.file.length)
+
+def mrest (s : MState) : List UInt8 := s.file.drop (s.mappedOff + s.pos)
+
+def mmu (s : MState) : Nat := if s.atEnd then 0 else s.file.length - (s.mappedOff + s.winLen) + 1
+
+theorem window_drop (s : MState) (p : Nat) :
+    s.window.drop p = (s.file.drop (s.mappedOff + p)).take (s.winLen - p) := by
+  simp [MState.window, List.drop_take, List.drop_drop]
+
+theorem window_length (s : MState) (h : s.mappedOff + s.winLen ≤ s.file.length) :
+    s.window.length = s.winLen := by
+  simp [MState.window]; omega
+
+/-- arithmetic of the page rounding of `position_`. -/
+theorem page_split (page pos off : Nat) (hp : 0 < page) (hd : page ∣ off) :
+    ∃ m r, pos = m + r ∧ r < page ∧ (pos + off) % page = r ∧ page ∣ m ∧ (m = 0 ∨ page ≤ m) := by
+  refine ⟨page * (pos / page), pos % page, (Nat.div_add_mod pos page).symm, Nat.mod_lt _ hp, ?_,
+    Nat.dvd_mul_right _ _, ?_⟩
+  · obtain ⟨q, rfl⟩ := hd
+    exact Nat.add_mul_mod_self_left _ _ _
+  · rcases Nat.eq_zero_or_pos (pos / page) with h | h
+    · left; simp [h]
+    · right; exact Nat.le_mul_of_pos_right _ h
+
+theorem mmapShift_sys (s : MState) (hI : MInv s) (hE : s.atEnd = false) :
+    MInv (mmapShift s) ∧ mrest (mmapShift s) = mrest s ∧
+    s.window.drop s.pos <+: (mmapShift s).window.drop (mmapShift s).pos ∧
+    mmu (mmapShift s) < mmu s := by
+  obtain ⟨i1, i2, i3, i4, i5, i6, i7, i8, i9⟩ := hI
+  obtain ⟨i9, i10⟩ := i9 hE
+  obtain ⟨m, r, hpos, hr, hmod, hdm, hm⟩ := page_split s.page s.pos s.mappedOff i2 i3
+  -- the new capacity
+  obtain ⟨cap', hcap, hc1, hc2, hc3⟩ : ∃ cap',
+      (if s.mapped && s.pos == (s.pos + s.mappedOff) % s.page then s.cap * 2 else s.cap) = cap' ∧
+      s.page ∣ cap' ∧ (m = 0 → cap' = s.cap * 2) ∧ (s.page ≤ m → cap' = s.cap) := by
+    refine ⟨_, rfl, ?_, ?_, ?_⟩
+    · split
+      · exact Nat.dvd_mul_right_of_dvd i4 2
+      · exact i4
+    · intro h; simp [i1, hmod]; omega
+    · intro h
+      have : ¬ (s.pos = r) := by omega
+      simp [hmod, this]
+  have hcpos : 0 < cap' := by
+    rcases hm with h | h
+    · rw [hc2 h]; omega
+    · rw [hc3 h]; omega
+  have hpc : s.page ≤ cap' := Nat.le_of_dvd hcpos hc1
+  obtain ⟨f1, f2, f3, f4, f5, f6, f7⟩ := mmapShift_fields s cap' hcap
+  rw [hmod] at f4 f5 f7
+  have hmo : s.pos + s.mappedOff - r = s.mappedOff + m := by omega
+  rw [hmo] at f4 f7
+  have hdm' : s.page ∣ s.mappedOff + m := Nat.dvd_add i3 hdm
+  refine ⟨⟨f6, by rw [f2]; exact i2, by rw [f2, f4]; exact hdm', by rw [f2, f3]; exact hc1,
+    by rw [f3]; omega, ?_, ?_, ?_, ?_⟩, ?_, ?_, ?_⟩
+  · rw [f5]; rcases f7 with ⟨_, _, h⟩ | ⟨_, _, h⟩ <;> rw [h] <;> omega
+  · rw [f1, f4]; rcases f7 with ⟨_, _, h⟩ | ⟨_, _, h⟩ <;> rw [h] <;> omega
+  · rw [f1, f4]; rcases f7 with ⟨_, _, h⟩ | ⟨_, h', h⟩
+    · rw [h]; omega
+    · rw [h', hE]; simp
+  · rw [f1, f4, f3]; rcases f7 with ⟨_, h', h⟩ | ⟨_, _, h⟩
+    · rw [h']; simp
+    · rw [h]; intro _; omega
+  · simp only [mrest, f1, f4, f5]; congr 1; omega
+  · rw [window_drop, window_drop, f1, f4, f5]
+    have : s.mappedOff + m + r = s.mappedOff + s.pos := by omega
+    rw [this]
+    apply List.take_prefix_take_left
+    rcases f7 with ⟨_, _, h⟩ | ⟨_, _, h⟩ <;> rw [h]
+    · omega
+    · rcases hm with h0 | h0
+      · rw [hc2 h0]; omega
+      · rw [hc3 h0]; omega
+  · simp only [mmu, hE, f1, f4]
+    rcases f7 with ⟨_, h', h⟩ | ⟨_, h', h⟩
+    · rw [h']; simp
+    · rw [h', hE, h]
+      simp only [Bool.false_eq_true, if_false]
+      rcases hm with h0 | h0
+      · rw [hc2 h0] at *; omega
+      · rw [hc3 h0] at *; omega
+
+
+def mmapSys : Sys mmapBacking where
+  Inv := MInv
+  rest := mrest
+  mu := mmu
+  pos_le := fun s h => by
+    show s.pos ≤ s.window.length
+    rw [window_length s h.2.2.2.2.2.2.1]; exact h.2.2.2.2.2.1
+  pfx := fun s _ => by
+    show s.window.drop s.pos <+: mrest s
+    rw [window_drop]; exact List.take_prefix _ _
+  atEnd_rest := fun s h hE => by
+    show mrest s = s.window.drop s.pos
+    rw [window_drop, mrest, List.take_of_length_le]
+    have := h.2.2.2.2.2.2.2.1 hE
+    simp; omega
+  shift := fun s h hE => mmapShift_sys s h hE
+  setPos := fun s p h h1 h2 => by
+    obtain ⟨i1, i2, i3, i4, i5, i6, i7, i8, i9⟩ := h
+    have h1' : s.pos ≤ p := h1
+    have h2' : p ≤ s.window.length := h2
+    rw [window_length s i7] at h2'
+    refine ⟨⟨i1, i2, i3, i4, i5, h2', i7, i8, i9⟩, ?_, rfl, rfl, rfl, rfl⟩
+    show s.file.drop (s.mappedOff + p) = (s.file.drop (s.mappedOff + s.pos)).drop (p - s.pos)
+    rw [List.drop_drop]; congr 1; omega
+
+theorem initMmap_facts (file : List UInt8) (page cap0 start : Nat)
+    (hpage : 0 < page) (hcap : 0 < cap0) (hdvd : page ∣ cap0) (hstart : start ≤ file.length) :
+    MInv (initMmap file page cap0 start) ∧ mrest (initMmap file page cap0 start) = file.drop start ∧
+    mmu (initMmap file page cap0 start) < file.length + 2 := by
+  obtain ⟨f1, f2, f3, f4, f5, f6, f7⟩ := mmapShift_fields
+    { file := file, page := page, cap := cap0, mappedOff := start, winLen := 0, pos := 0,
+      atEnd := false, mapped := false } cap0 (by simp)
+  simp only [Nat.zero_add] at f1 f2 f3 f4 f5 f7
+  have hr : start % page < page := Nat.mod_lt _ hpage
+  have hr' : start % page ≤ start := Nat.mod_le _ _
+  have hd : page ∣ start - start % page := Nat.dvd_sub_mod _
+  have hpc : page ≤ cap0 := Nat.le_of_dvd hcap hdvd
+  generalize start % page = r at *
+  unfold initMmap
+  generalize mmapShift _ = t at *
+  refine ⟨⟨f6, by rw [f2]; exact hpage, by rw [f2, f4]; exact hd, by rw [f2, f3]; exact hdvd,
+    by rw [f3]; exact hcap, ?_, ?_, ?_, ?_⟩, ?_, ?_⟩
+  · rw [f5]; rcases f7 with ⟨_, _, h⟩ | ⟨_, _, h⟩ <;> rw [h] <;> omega
+  · rw [f1, f4]; rcases f7 with ⟨_, _, h⟩ | ⟨_, _, h⟩ <;> rw [h] <;> omega
+  · rw [f1, f4]; rcases f7 with ⟨_, _, h⟩ | ⟨_, h', h⟩
+    · rw [h]; omega
+    · rw [h']; simp
+  · rw [f1, f4, f3]; rcases f7 with ⟨_, h', h⟩ | ⟨_, _, h⟩
+    · rw [h']; simp
+    · rw [h]; intro _; omega
+  · simp only [mrest, f1, f4, f5]; congr 1; omega
+  · simp only [mmu, f1]; split <;> omega
+
+theorem readAll_mmap (delim : UInt8) (stripCr : Bool) (file : List UInt8) (page cap0 start : Nat)
+    (hpage : 0 < page) (hcap : 0 < cap0) (hdvd : page ∣ cap0) (hstart : start ≤ file.length) :
+    ∃ s', readAll mmapBacking delim stripCr (file.length + 2) (file.length + 2) (initMmap file page cap0 start)
+        = some (splitRecords delim stripCr (file.drop start), s') ∧
+      s'.atEnd = true ∧ s'.pos = s'.window.length := by
+  obtain ⟨h1, h2, h3⟩ := initMmap_facts file page cap0 start hpage hcap hdvd hstart
+  obtain ⟨s', e, _, e3, e4⟩ := readAll_post mmapSys delim stripCr (file.length + 2) (file.length + 2)
+    (initMmap file page cap0 start) h1 h3
+    (by show (mrest _).length < _; rw [h2]; simp; omega)
+  refine ⟨s', ?_, e3, e4⟩
+  rw [e]; show some (splitRecords delim stripCr (mrest _), s') = _; rw [h2]
+
 end PV.Lemmas.Reader
